@@ -304,7 +304,38 @@ def t_structure(P):
 
 R_STRUCT = dict(kind=(0, 13), irv=(0, 6))
 
-TEMPLATES = {"names-main": (t_names_main, R_NAMES_MAIN), "names-sub": (t_names_sub, R_NAMES_SUB), "enums": (t_enums, R_ENUMS), "tensors": (t_tensors, R_TENSORS),
+FN_NAMES = ["t", "t:0", "u/v", "a::b"]
+
+
+def t_functions(P):
+    """a model-local function whose inner values carry value-info, at IR versions around the version (10) that introduced
+    FunctionProto.value_info; value names contain the separators of the legacy '{domain}::{function}/{value}' scheme"""
+    from onnx import TensorProto as TP
+    from onnx import helper as H
+
+    irv = [8, 9, 10, 11][operator.index(P["irv"])]
+    inner = FN_NAMES[operator.index(P["inner"])]
+    fin = FN_NAMES[operator.index(P["fin"])]
+    dom = ["custom", "cu/stom", "cu::stom"][operator.index(P["dom"])]
+    n1 = H.make_node("Relu", [fin], [inner], name="f1")
+    n2 = H.make_node("Neg", [inner], ["fy"], name="f2")
+    fn = H.make_function(dom, "F", [fin], ["fy"], [n1, n2], [H.make_opsetid("", 18)])
+    if operator.index(P["overload"]):
+        fn.overload = "ov"
+    if operator.index(P["fvi"]):
+        fn.value_info.extend([H.make_tensor_value_info(inner, TP.FLOAT, [2]), H.make_tensor_value_info(fin, TP.FLOAT, [2])])
+    call = H.make_node("F", ["x"], ["y"], name="call", domain=dom)
+    if operator.index(P["overload"]):
+        call.overload = "ov"
+    g = H.make_graph([call], "g", [H.make_tensor_value_info("x", TP.FLOAT, [2])], [H.make_tensor_value_info("y", TP.FLOAT, [2])])
+    if operator.index(P["legacy"]):      # legacy spelling of function value-info in the main graph (IR < 10)
+        g.value_info.append(H.make_tensor_value_info(f"{dom}::F/{inner}", TP.FLOAT, [2]))
+    return H.make_model(g, opset_imports=[H.make_opsetid("", 18), H.make_opsetid(dom, 1)], ir_version=irv, functions=[fn])
+
+
+R_FUNCTIONS = dict(irv=(0, 3), inner=(0, 3), fin=(0, 1), dom=(0, 2), overload=(0, 1), fvi=(0, 1), legacy=(0, 1))
+
+TEMPLATES = {"functions": (t_functions, R_FUNCTIONS), "names-main": (t_names_main, R_NAMES_MAIN), "names-sub": (t_names_sub, R_NAMES_SUB), "enums": (t_enums, R_ENUMS), "tensors": (t_tensors, R_TENSORS),
              "structure": (t_structure, R_STRUCT)}
 
 
@@ -417,7 +448,18 @@ def make_case(tier, key):
 
     def sig(args, obs):
         first = obs["problems"][0] if obs["problems"] else "?"
-        return f"C17:{template}:" + first.split(":")[0] + ":" + (first.split(": ")[1][:50] if ": " in first else "")
+        base = f"C17:{template}:" + first.split(":")[0] + ":" + (first.split(": ")[1][:50] if ": " in first else "")
+        if template == "functions":
+            # which irregularity of the legacy '{domain}::{function}/{value}' naming scheme is present
+            cls = []
+            if args.get("dom", 0) > 0:
+                cls.append("domain-with-separator")
+            if FN_NAMES[args.get("inner", 0)] in ("u/v", "a::b"):
+                cls.append("value-with-separator")
+            if args.get("overload", 0):
+                cls.append("overload")
+            base += ":" + ("+".join(cls) or "plain-names")
+        return base
 
     def describe(args, obs):
         return f"template {template} {args}: " + "; ".join(obs["problems"][:2])
@@ -440,6 +482,7 @@ def keys_for(tier):
     for a in range(6):
         keys.append(("tensors", (("storage", a),)))
     keys.append(("structure", ()))
+    keys.append(("functions", ()))
     return keys
 
 
